@@ -46,6 +46,15 @@ def run(ctx, gc=False):
                           "cover", workers=1, timeout=3000, coverage=True)
     walks = ctx.tlc_gen("MC_Mvcc", GEN.format(maxn=2, maxe=1, maxv=5, vals='{"v1", "v2"}', maxh=24, view="", emit="",
                                               inv="SimEmit", prop=""), "walks", simulate=(600 if q else 8000, 25), workers=4)
+    # relationships only, two values: one script per transition of (state, what the last GC pass drained) -- ViewP keeps apart
+    # the states a GC pass reached by draining a log down to its base entry from the same states reached without draining, so a
+    # later write of ANOTHER value is replayed after both (seven steps, two values: out of reach of the cover above)
+    edges = ctx.tlc_gen("MC_Mvcc", GEN.format(maxn=0, maxe=1, maxv=3 if q else 4, vals='{"v1", "v2"}', maxh=7, view="VIEW ViewP",
+                                              emit="ACTION_CONSTRAINT Emit", inv="", prop=""), "edges", workers=1, timeout=3000)
+    if gc:
+        edges = [s for s in edges if any(is_gc(st) for st in s)]
+    else:
+        edges = [s for s in edges if not any(is_gc(st) for st in s)]
     if gc:
         scripts = [s for s in scripts if any(is_gc(st) for st in s)]
         walks = [s for s in walks if any(is_gc(st) for st in s)]
@@ -55,7 +64,7 @@ def run(ctx, gc=False):
     ctx.assume("universe: <=2 nodes, 1 relationship (between two permanent anchor nodes), versions <=5, one label, one property key",
                "the global version is advanced by committing an empty transaction",
                "reads released by GC (versions below the watermark and below the current version) are unconstrained")
-    for name, ss, (mn, me, mv) in (("cover", scripts, (1, 1, 3)), ("walks", walks, (2, 1, 5))):
+    for name, ss, (mn, me, mv) in (("cover", scripts, (1, 1, 3)), ("edges", edges, (0, 1, 3 if q else 4)), ("walks", walks, (2, 1, 5))):
         sp = ctx.write_scripts(name, ss)
         tr = ctx.run_harness("mvcc", sp, name=name, args=["maxn=%d" % mn, "maxe=%d" % me])
         ctx.validate("Mvcc_Trace", TRACE.format(maxn=mn, maxe=me, maxv=mv), tr, name=name, corrupt=corrupt_field("cur"))
